@@ -19,9 +19,14 @@ CONE = ["Props/C11.v", "Proofs/GenericPrefix.v", "Proofs/GenericFrag.v"]
 def files(rng, tier):
     out = []
     udta = isogen.udta([isogen.meta([isogen.ilst([isogen.ilst_item(isogen.TITLE, 1, b"Cut me")])])])
-    for i in range(4 if tier == "quick" else 24):
+    for i in range(6 if tier == "quick" else 24):
         trs = readcheck.small_tracks(rng, maxn=6)
-        r, _, _ = isogen.build_movie(trs, "moov_first" if i % 2 == 0 else "mdat_first", udta=udta if i % 3 == 0 else None)
+        r, _, nodes = isogen.build_movie(trs, "moov_first" if i % 2 == 0 else "mdat_first", udta=udta if i % 3 == 0 else None)
+        if i % 2 == 1:
+            # movie header last: shuffle the children of every container (any table may then be the last bytes of the file)
+            import check_c12
+            nodes = nodes[:-1] + [check_c12.transform(nodes[-1], rng, p_ins=0.0, p_perm=1.0, p_large=0.0, p_pad=0.0)]
+            r = isogen.render(nodes)
         out.append(("movie%d" % i, bytes(r.data), False))
     for i in range(2 if tier == "quick" else 12):
         tracks = [{"id": 1, "kind": "avc", "ts": 1000}, {"id": 2, "kind": "aac", "ts": 48000}][:rng.choice([1, 2])]
